@@ -65,6 +65,19 @@ def oracle(ctx, out):
       dup = True
     pset[(T, C)] = item
   obs.append(('no-duplicates', not dup, dict(n=len(pushed))))
+  # the universe searched is this object's own admitted set
+  own = set(out.mm.geos_within_constraints)
+  obs.append(('searched universe = geos_within_constraints', set(adm) == own,
+              dict(searched=sorted(adm), own=sorted(own))))
+  _, must = search.eligibility_sets(out.rows)
+  if 'ngm' in sv or p.n_geos_max is not None:
+    ngm = sv['ngm'] if 'ngm' in sv else int(p.n_geos_max)
+    for T, C, _ in pushed:
+      nn = len(T | C)
+      f = (nn <= ngm) if isinstance(ngm, int) else (ngm >= nn)
+      if len(must) <= 2:
+        obs.append(('design within n_geos_max', f if not isinstance(
+            f, bool) else f, dict(T=sorted(T), C=sorted(C))))
   pk = search.par_key(out)
   rp = search.ref_par(ctx, out)
   has_budget = 'budget' in sv or p.budget_range is not None
@@ -166,12 +179,14 @@ PAIRS = [('share', 'budget'), ('vol', 'gratio'), ('tsize', 'csize'),
          ('vol', 'k'), ('gratio', 'k')]
 
 
-def _mk(panel, sym, el, tag, seed=0, max_s=1000, elig_fix=None, conc=None):
-  name = '%s-%s-%s' % (panel, '+'.join(sym) or 'none', tag)
+def _mk(panel, sym, el, tag, seed=0, max_s=1000, elig_fix=None, conc=None,
+        history=None):
+  name = '%s-%s-%s%s' % (panel, '+'.join(sym) or 'none', tag,
+                         '-' + history if history else '')
   w = (20 if panel != 'P1' else 0) + 6 * len(sym) + (10 if el is None else 0)
   return dict(func='job', name=name, weight=w, kwargs=dict(
       name=name, panel=panel, method='exhaustive', sym=list(sym), elig=el,
-      seed=seed, max_s=max_s, elig_fix=elig_fix, conc=conc))
+      seed=seed, max_s=max_s, elig_fix=elig_fix, conc=conc, history=history))
 
 
 def jobs(tier, seed):
@@ -192,6 +207,11 @@ def jobs(tier, seed):
     if el is not None:
       for pr in PAIRS[:4]:
         out.append(_mk('P2', pr, el, 'e%d' % i, max_s=2500))
+  # the data object is shared with / was used before by another search object
+  for h in ('interleave', 'prior'):
+    for i, el in enumerate(ELIGS4[:2] + [None]):
+      for s in (['ngm'], ['k']):
+        out.append(_mk('P2', s, el, 'h%d' % i, history=h, max_s=2500))
   # 4 comparable geos, default eligibility: subset sums are not monotone in
   # the enumeration order
   for s in (['share'], ['vol'], ['tsize'], ['gratio'], ['k']):
